@@ -3,6 +3,7 @@
 //! Direction B: `*-record` commands drive the real API and log NDJSON traces for TLC to validate.
 mod action;
 mod api;
+mod candle;
 mod methods;
 mod num;
 mod params;
@@ -30,6 +31,8 @@ fn dispatch(cmd: &str, rest: &[String]) {
 		"action-probe" => action::probe(rest),
 		"api-replay" => api::replay(rest),
 		"params-replay" => params::replay(rest),
+		"candle-replay" => candle::replay(rest),
+		"candle-record" => candle::record(rest),
 		"num-record" => num::record(rest),
 		"tok-replay" => tok::replay(rest),
 		"tok-record" => tok::record(rest),
